@@ -66,6 +66,11 @@ def snapshot_library_state():
     _LIB_BASE = (owners, conts)
 
 
+def ensure_library_snapshot():
+    if _LIB_BASE is None:
+        snapshot_library_state()
+
+
 def restore_library_state():
     if _LIB_BASE is None:
         return
